@@ -1,6 +1,7 @@
 /* C15 shim: event log, context/fd tables, fault switches and accounting shared by
  * harness/c15_shim.c (the -Wl,--wrap interposers) and harness/drivers/c15_driver.c.
- * Wrapped with -Wl,--wrap: muggle_evloop_add_ctx close accept read write malloc free calloc realloc */
+ * Wrapped with -Wl,--wrap: muggle_evloop_add_ctx close accept read write poll select epoll_wait
+ * malloc free calloc realloc */
 #ifndef C15_SHIM_H_
 #define C15_SHIM_H_
 #include <stddef.h>
@@ -24,6 +25,7 @@ void sh_dump(FILE *fp);
 int sh_ctx_new_locked(void *ctx);       /* caller holds the lock; returns id */
 int sh_ctx_id(void *ctx);               /* live contexts only; -1 = unknown pointer */
 void sh_ctx_dead_locked(int id);        /* pointer no longer valid */
+void sh_ctx_late_locked(int id);        /* ... taken back by its owner (late hand-over): not counted as freed */
 int sh_ctx_allocs(void);
 int sh_ctx_frees(void);
 void sh_map_fd(int fd, int id);
@@ -41,11 +43,28 @@ extern __thread int sh_fail_next_malloc;
 void sh_pipe_fds(int rfd, int wfd, unsigned long long seed, int rfrag, int wfrag);
 void sh_pipe_writer_id(int w);          /* thread-local writer id for the W lines */
 
+/* ---- event signal and back-end wait of the loop thread (lines sigw / sigr / idle) ---- */
+void sh_signal_fd(int fd);              /* the loop's event signal descriptor (eventfd); -1 none */
+extern __thread int sh_sig_tag;         /* >= 0: this thread is inside the hand-over of that context id */
+void sh_loop_thread(int on);            /* the calling thread runs muggle_evloop_run: its waits are logged */
+long sh_idle_count(void);               /* empty wait attempts of the loop thread so far */
+int sh_loop_blocked(void);              /* the loop thread found nothing ready and is still in its wait */
+int sh_loop_quiet(void);                /* ... and nothing in the set it waits on is ready (asked again, timeout 0,
+                                           nothing consumed): nothing will end that wait */
+long sh_wait_epoch(void);               /* number of waits of the loop thread that found nothing so far */
+
 /* ---- accounting ---- */
 long sh_heap_live(void);
 int sh_open_fds(void);
 int sh_badclose(void);
 
+/* ---- configurations without user callbacks ---- */
+void sh_default_alloc(int on);          /* the handle keeps the library's default allocator: name contexts at their
+                                           first muggle_evloop_add_ctx ("alloc <id>"), log their free ("free <id>") */
+void sh_log_reads(int on);              /* no cb_msg: log the loop thread's reads on context descriptors ("rd ..") */
+
 /* hooks implemented by the driver */
 void drv_on_reg(int id, int ret);       /* muggle_evloop_add_ctx(ctx id) returned ret */
+void drv_on_alloc(int id, void *ctx);   /* default allocator: context first seen (log lock held) */
+void drv_on_read(int id, long n);       /* no cb_msg: the default loop read n bytes of context id */
 #endif
